@@ -702,7 +702,7 @@ class Interp:
             while pos < len(pdu):
                 try:
                     cand, _ = self.dec_dop(d["end_dop"], pdu, pos, 0, lk)
-                    if cand == tv:
+                    if cand.ok(tv) if hasattr(cand, "ok") and hasattr(cand, "alts") else cand == tv:
                         break
                 except (Short, Mismatch):
                     pass
